@@ -169,6 +169,18 @@ func CheckBlocked(mode string, ttl uint32, qname string, qtype uint16, hostsBloc
 		if len(m.Answer) != 0 {
 			return "blocked non-address query has answer records"
 		}
+		if qtype == dns.TypeHTTPS && (mode == "nxdomain" || mode == "refused") {
+			// HTTPS questions are answered by the configured mode like address
+			// questions (they carry address hints): NXDOMAIN / REFUSED.
+			want := dns.RcodeNameError
+			if mode == "refused" {
+				want = dns.RcodeRefused
+			}
+			if m.Rcode != want {
+				return fmt.Sprintf("%s mode: a blocked HTTPS question wants %s, got %s", mode, dns.RcodeToString[want], dns.RcodeToString[m.Rcode])
+			}
+			return ""
+		}
 		switch m.Rcode {
 		case dns.RcodeSuccess:
 		case dns.RcodeNameError:
